@@ -29,6 +29,7 @@ func runC20(c *Ctx) {
 	p := c.P
 	hookUpgradeablesPerType(c, "R1")
 	configSectionsRemovedOnlyByAttribute(c, "R4")
+	configFileNamedVerbatim(c, "R4")
 	inst := p.Fn("lfs", "(*Hook).Install")
 	upg := p.Fn("lfs", "(*Hook).Upgrade")
 	unin := p.Fn("lfs", "(*Hook).Uninstall")
